@@ -185,6 +185,13 @@ theorem reveal_two_copies [DecidableEq R] (w : World R) (hw : Consistent w) (c h
       · left; exact reveal_fails_if_different _ _ _ heq
     · exfalso; omega
 
+/-- non-vacuity of `reveal_two_copies`: a consistent sharing, helper 1 deviating, seen from helper 0; and a forged
+copy really is rejected. -/
+example (x r1 r2 : Nat) :
+    Consistent (share (modAlg 31) x r1 r2) ∧ (1 : Nat) < 3 ∧ (0 : Nat) < 3 ∧ (0 : Nat) ≠ 1 ∧
+      revealCorrupt (modAlg 31) (share (modAlg 31) 5 1 2) 1 0 9 9 = none := by
+  refine ⟨⟨rfl, rfl, rfl⟩, by omega, by omega, by omega, by decide⟩
+
 /-- the MAC'd variant: opening a `MaliciousReplicated` opens its `x` part with the same two-copy rule. -/
 theorem reveal_two_copies_mac [DecidableEq R] (m : MShare R) (hm : MConsistent m) (c h : Nat) (hc : c < 3)
     (hh : h < 3) (hne : h ≠ c) (mL mR : R) :
